@@ -50,6 +50,15 @@ def jobs(tier):
                                       "_vnacal_new_solve_calc_weights"],
                            bound="%s %dx%d, one reflect standard (too few), m_error %s; values symbolic" % (t, r, c, "on" if me else "off"),
                            timeout=200, cbmc_flags=["--slice-formula"]))
+    ksrcs = [x for x in srcs if x not in ("vnacommon_qrsolve.c", "vnacommon_mldivide.c")]
+    for t in ("VNACAL_UE14", "VNACAL_E12"):
+        d = CUT + ["-DCAL_TYPE=%s" % t, "-DCAL_ROWS=2", "-DCAL_COLS=2", "-DKERNEL_CONTRACTS"]
+        J.append(V.Job("solve_uneven.%s_2x2" % t[7:], H, "h_solve_uneven", ksrcs, defines=d, unwind=20, union_struct=True,
+                       kind="bounded", canary=(t == "VNACAL_UE14"),
+                       functions=["vnacal_new_solve", "_vnacal_new_solve_internal", "_vnacal_new_solve_simple"],
+                       bound="%s 2x2, short/open/match on port 2, through, short on port 1 (column 1 short of equations); values symbolic; "
+                             "linear kernels by assumed contract (any rank <= min(m,n), any determinant)" % t,
+                       timeout=200, cbmc_flags=["--slice-formula"]))
     return J
 
 
